@@ -39,6 +39,7 @@ type ChunkLayout struct {
 
 type SeriesLayout struct {
 	Sid    uint64        `json:"sid"`
+	Group  int           `json:"group"` // which of the operation's compaction plans (by output sequence)
 	Fields []string      `json:"fields"` // union of the column names, sorted (the order the compactor walks them)
 	In     []ChunkLayout `json:"in"`     // the series' chunk in every input file that holds it, in file order
 	Out    []ChunkLayout `json:"out"`    // the series' chunk in every output file that holds it, in file order
@@ -387,43 +388,77 @@ func (c *colCtx) runOp(op string, emit func(*ColInstance)) {
 	}
 	inst.TmpLeft = countTmp(c.shardDir)
 	inst.Aband = len(ins) == 0 && len(outs) == 0 && (op != "merge" || nUnordB > 0) && len(snapB) > 1
-	// layouts per series for a compaction (for a merge the inputs also include the out-of-order files: oracle only)
+	// layouts per series for a compaction (for a merge the inputs also include the out-of-order files: oracle only).
+	// Several plans may have run (one output sequence per plan): the inputs of the plan that wrote the files of sequence s
+	// are the replaced files with a sequence from s up to the next output sequence.
 	if op != "merge" && len(ins) > 0 {
-		sids := map[uint64]bool{}
-		for _, s := range ins {
-			for sid := range s.lay {
-				sids[sid] = true
+		seqOf := func(name string) string { return strings.SplitN(name, "-", 2)[0] }
+		var outSeqs []string
+		seenSeq := map[string]bool{}
+		for _, s := range outs {
+			if q := seqOf(s.name); !seenSeq[q] {
+				seenSeq[q] = true
+				outSeqs = append(outSeqs, q)
 			}
 		}
-		var sl []uint64
-		for sid := range sids {
-			sl = append(sl, sid)
+		sort.Strings(outSeqs)
+		groupOf := func(name string) int {
+			g := -1
+			for i, q := range outSeqs {
+				if seqOf(name) >= q {
+					g = i
+				}
+			}
+			return g
 		}
-		sort.Slice(sl, func(i, j int) bool { return sl[i] < sl[j] })
-		for _, sid := range sl {
-			ser := SeriesLayout{Sid: sid}
-			fset := map[string]bool{}
+		for g := range outSeqs {
+			var gin, gout []fileSnap
 			for _, s := range ins {
-				if l, ok := s.lay[sid]; ok {
-					ser.In = append(ser.In, *l)
-					for f := range l.C {
-						fset[f] = true
-					}
+				if groupOf(s.name) == g {
+					gin = append(gin, s)
 				}
 			}
 			for _, s := range outs {
-				if l, ok := s.lay[sid]; ok {
-					ser.Out = append(ser.Out, *l)
-					for f := range l.C {
-						fset[f] = true
-					}
+				if groupOf(s.name) == g {
+					gout = append(gout, s)
 				}
 			}
-			for f := range fset {
-				ser.Fields = append(ser.Fields, f)
+			sids := map[uint64]bool{}
+			for _, s := range gin {
+				for sid := range s.lay {
+					sids[sid] = true
+				}
 			}
-			sort.Strings(ser.Fields)
-			inst.Series = append(inst.Series, ser)
+			var sl []uint64
+			for sid := range sids {
+				sl = append(sl, sid)
+			}
+			sort.Slice(sl, func(i, j int) bool { return sl[i] < sl[j] })
+			for _, sid := range sl {
+				ser := SeriesLayout{Sid: sid, Group: g}
+				fset := map[string]bool{}
+				for _, s := range gin {
+					if l, ok := s.lay[sid]; ok {
+						ser.In = append(ser.In, *l)
+						for f := range l.C {
+							fset[f] = true
+						}
+					}
+				}
+				for _, s := range gout {
+					if l, ok := s.lay[sid]; ok {
+						ser.Out = append(ser.Out, *l)
+						for f := range l.C {
+							fset[f] = true
+						}
+					}
+				}
+				for f := range fset {
+					ser.Fields = append(ser.Fields, f)
+				}
+				sort.Strings(ser.Fields)
+				inst.Series = append(inst.Series, ser)
+			}
 		}
 	}
 	// reopen a copy of the shard: the same answers, nothing half-written visible or left
@@ -619,6 +654,25 @@ func runColCase(idx int, r *gen.Rand, work string, segLimit bool, emit func(*Col
 	immutable.LeveLMinGroupFiles[0] = gen.Pick(r, []int{2, nFiles, nFiles})
 	for i := 0; i < nFiles; i++ {
 		c.writeFile(true)
+	}
+	if v := os.Getenv("C03_SEGCHANGE"); v != "" {
+		// experiment: the files were written under another max-rows-per-segment than the one in force now (the option
+		// was changed and the server restarted)
+		_ = c.st.Close()
+		nm := map[int]int{8: 16, 16: 8}[c.maxRows]
+		if v == "down" {
+			nm = c.maxRows / 2
+		}
+		c.hist = append(c.hist, fmt.Sprintf("maxrows%d->%d", c.maxRows, nm))
+		c.maxRows = nm
+		immutable.SetMaxRowsPerSegment4TsStore(nm)
+		c.conf = immutable.NewTsStoreConfig()
+		c.st = immutable.NewTableStore(filepath.Join(c.shardDir, immutable.TsspDirName), &lockPath, &tier, true, c.conf)
+		c.st.SetImmTableType(config.TSSTORE)
+		if _, err := c.st.Open(nil); err != nil {
+			panic(err)
+		}
+		c.st.CompactionEnable()
 	}
 	var ops []string
 	switch r.Intn(5) {
